@@ -24,6 +24,9 @@ type Env struct {
 	progVar  func(name string, st *State) (SV, bool, error)
 	rangeIdx func(st *State) (*Term, bool)
 	idxAdj   int64 // #i = rangeindex + idxAdj
+	// #iK: the number of elements the ENCLOSING range loop K has completely processed (= the index of its current element),
+	// readable in the clauses of a loop nested in the body of loop K
+	outerIdx func(k int, st *State) (*Term, error)
 	letDepth int
 	headSt   *State // state at the head of the enclosing loop (for head(e))
 	heapSt   *State // when set, heap and world reads use this state (oldheap(e)) while variables use st
@@ -231,6 +234,19 @@ func (e *Env) evalIdent(name string) (SV, error) {
 		return SV{T: v.c.Arith("+", t, v.c.Int(e.idxAdj))}, nil
 	case "$alloc":
 		return SV{T: v.getGlobal(e.st, "$alloc")}, nil
+	}
+	if strings.HasPrefix(name, "#i") && len(name) > 2 {
+		var k int
+		if _, err := fmt.Sscanf(name[2:], "%d", &k); err == nil && fmt.Sprint(k) == name[2:] {
+			if e.outerIdx == nil {
+				return SV{}, serr("%s used outside a loop clause", name)
+			}
+			t, err := e.outerIdx(k, e.st)
+			if err != nil {
+				return SV{}, err
+			}
+			return SV{T: t}, nil
+		}
 	}
 	for i, rn := range e.resNames {
 		if rn == name && i < len(e.results) {
@@ -637,6 +653,10 @@ func (e *Env) evalCall(x *Expr) (SV, error) {
 					return SV{T: c.App(at.SeqLen, SInt, a[0].T)}, nil
 				}
 			}
+		}
+		if len(a) == 1 && a[0].T.Sort == v.tm.SStr {
+			// Go's len(s) of a string: the same uninterpreted str_len the engine uses for the code's own len(s)
+			return SV{T: c.UF("str_len", SInt, a[0].T)}, nil
 		}
 		if len(a) != 1 || !isSliceSort(a[0].T.Sort) {
 			return SV{}, serr("len: one slice argument in %s", x)
